@@ -789,7 +789,7 @@ def _worker(args):
         elif rest and rest[0]:
             # the header-variation class (`vary_headers`): its own random stream, the stages' streams stay as they were
             spec, info = gen_doc(common.sub_rng(seed, "encodecorr", "headers", stage, k), stage, k, vary=True)
-            if len(rest) > 1 and rest[1]:
+            if len(rest) > 1 and rest[1] is True:
                 # the same document with its component arguments in other container spellings (docgen "spelling":
                 # headers as a tuple / a single object, texts as str / list / tuple / frame); single frames only
                 srng = common.sub_rng(seed, "encodecorr", "spelling", stage, k)
@@ -800,6 +800,13 @@ def _worker(args):
         else:
             spec, info = gen_doc(common.sub_rng(seed, "encodecorr", stage, k), stage, k)
             label_headers(spec, info)
+        if fixed is None and len(rest) > 1 and rest[1] == "args":
+            # the argument-spelling class: the document of any of the three classes above with EVERY container-typed
+            # constructor argument in another container the constructors accept (docgen `gen_spelling(args=True)`:
+            # column-name arguments as tuple / bare str, each on its own; margin, col_rel_width, texts, header list);
+            # the encoder model reads the constructed state's entries, whatever sequence holds them
+            respell(common.sub_rng(seed, "encodecorr", "argspelling", stage, k, str(rest[0])), spec, info,
+                    drop=("sections",))
         if fixed is None:
             draw_unserialized(seed, spec, info, stage, k, *map(str, rest))
         out = dict(spec=spec, info=info, stage=stage)
@@ -829,6 +836,26 @@ def _worker(args):
 
 
 STAGE_NAMES = {1: "plain", 2: "page_by/subline_by", 3: "group_by"}
+
+
+def respell(rng, spec, info, drop=(), p=0.6):
+    """hand every container-typed constructor argument of `spec` over in a drawn container spelling (the spec stays in
+    its plain shape: key "spelling"); `drop` = spelling keys the caller's serialiser cannot follow"""
+    force = {}
+    h = spec.get("headers", "default")
+    if spec.get("kind", "table") != "figure" and isinstance(h, list) and h and "headers" not in drop \
+            and rng.random() < 0.5:
+        force["headers"] = "tuple"
+    sp = docgen.gen_spelling(rng, spec, p=p, force=force, args=True)
+    for k in drop:
+        sp.pop(k, None)
+    spec["spelling"] = sp
+    info["spelling_labels"] = ["argspelled-doc"] + docgen.spelling_labels(spec)
+
+
+def count_spelling(res, info, prefix):
+    for lab in info.get("spelling_labels") or []:
+        res.count(f"{prefix}:{lab}")
 
 
 def compare(outs):
@@ -870,10 +897,11 @@ def compare(outs):
 
 HEADER_SHARE = {1: 6, 2: 2, 3: 4}      # header-variation documents per stage: n_per_stage // share
 SHAPE_SHARE = {1: 6, 2: 4, 3: 2}       # data-shape documents per stage (`harness/datashapes.py`)
+ARGSPELL_SHARE = {1: 8, 2: 3, 3: 4}    # argument-spelling documents per stage (`respell`)
 
 
 def generate_and_compare(seed: int, n_per_stage: int, stages=(1, 2, 3), headers: bool = False, shapes: bool = False,
-                         spelled: int = 0):
+                         spelled: int = 0, argspelled: bool = False):
     """`headers=True` adds the documents of the header-variation class (`vary_headers`) to every stage, `shapes=True`
     those of the data-shape class (`datashapes.gen_corr_doc`); `spelled` adds that many documents of the header class per
     stage with their component arguments in other container spellings"""
@@ -883,6 +911,10 @@ def generate_and_compare(seed: int, n_per_stage: int, stages=(1, 2, 3), headers:
     if shapes:
         jobs += [(seed, st, k, None, "shapes") for st in stages for k in range(n_per_stage // SHAPE_SHARE[st])]
     jobs += [(seed, st, k, None, True, True) for st in stages for k in range(spelled)]
+    if argspelled:
+        # the argument-spelling class over the three document classes in turn (plain stream / header class / data shapes)
+        jobs += [(seed, st, k, None, (False, True, "shapes")[k % 3], "args") for st in stages
+                 for k in range(n_per_stage // ARGSPELL_SHARE[st])]
     outs = common.pool_map(_worker, jobs, chunksize=8)
     for o in outs:
         if "machinery" in o:
@@ -895,9 +927,10 @@ def run(res, tier):
     n = 150 if tier == "quick" else 1200
     from . import datashapes
 
-    outs = generate_and_compare(res.seed, n, headers=True, shapes=True)
+    outs = generate_and_compare(res.seed, n, headers=True, shapes=True, argspelled=True)
     for o in outs:
         st = STAGE_NAMES[stage_of(o["spec"])]
+        count_spelling(res, o["info"], f"spell:encode:{o['verdict']}")
         case = dict(level="encode-doc", spec=o["spec"], info={k: v for k, v in o["info"].items() if k != "expect"})
         res.count(f"encode:{st}:{o['verdict']}")
         count_header_rows(res, o["info"])
